@@ -370,7 +370,7 @@ func initRegexps() {
 
 	// These corresponds to the bullet list in
 	// https://spec.commonmark.org/0.31.2/#html-blocks.
-	html1Regexp = regexp.MustCompile(`^ {0,3}<(?i:pre|script|style|textarea)`)
+	html1Regexp = regexp.MustCompile(`^ {0,3}<(?i:pre|script|style|textarea)(?:[ \t>]|$)`)
 	html1CloserRegexp = regexp.MustCompile(`</(?i:pre|script|style|textarea)`)
 	html2Regexp = regexp.MustCompile(`^ {0,3}<!--`)
 	html2CloserRegexp = regexp.MustCompile(`-->`)
